@@ -1,4 +1,5 @@
 import IpcModel.Ledger.LP
+import IpcModel.GenOwn
 /-!
 # C11 — no descriptor is leaked, closed twice or closed without being owned
 
@@ -71,5 +72,13 @@ theorem C11_close_once (ops : List Op) (st : St) (h : run init ops = some st) :
 /-- non-vacuity: a channel, a clone, everything dropped -/
 example : (run init [.install 0 .snd, .install 0 .rcv, .clone 0, .drop 0, .drop 2, .drop 1]).map (fun s => (s.closed, s.hs))
     = some ([1, 0], [H.dead, H.dead, H.dead]) := by decide
+
+/-- **C11_shape** — what the ledger model's operations assume about who owns a descriptor, regenerated from the source: a receiver
+closes its descriptor when dropped unless it was consumed (moved into a message, a set or another receiver); sender clones
+share one descriptor closed by the last clone; an attachment that was never converted into an endpoint closes its
+descriptor; a set closes its members; a region closes its backing store once and unmaps exactly the mapped length; every
+way a descriptor enters the process (socketpair, socket, accept4, recvmsg, dup, memfd) asks for close-on-exec. -/
+theorem C11_shape : Gen.shape_receiverOwnsOnce = true ∧ Gen.shape_senderSharedDescriptor = true ∧ Gen.shape_opaqueOwnsUntilConverted = true ∧
+    Gen.shape_setClosesMembers = true ∧ Gen.shape_regionReleases = true ∧ Gen.shape_everythingCloexec = true := by decide
 
 end C11
